@@ -9,6 +9,17 @@ META = {
     },
 }
 
+META["C03"] = {
+    "text": "Bounded symbolic model checking of the real applyTransactionBatch/recordBatch and the SQL layer under them (AddToBalance, SubFromBalance, SelectPendingBalance(s), history updates) from an ARBITRARY ledger pre-state: the solver shows that every accepted batch is funded at each step in sequential order, has exactly the reference effects on every row, that rejected/dropped batches leave every table unchanged, and that no balance is negative even with the column CHECK constraints switched off. One inductive step from an arbitrary state covers histories of any length.",
+    "note": "bounds: 1..3 transactions, <=2 outputs, asset pools of 2-5 tickers, balances/totals < 2^62; fat103 signature check not in this unit; SQL semantics = relational store model validated against real SQLite by per-run native replays; block-failing errors are handed to C08",
+    "design_ref": "DESIGN.md §7 C03",
+}
+META["C04"] = {
+    "text": "Same symbolic runs as C03 with the conservation oracle: per asset, SUM over all rows changes by exactly the event's amount (transfer 0, burn-address output -amount from 2.0.2, conversion -in/+floor(in*S/D)), every transfer output is credited to its named recipient, a bystander row is untouched, and balances are only written by the block transaction. Known finding D18 (zero-address sink before 2.0.2) is reported as KNOWN-FINDING.",
+    "note": "as C03; issuance units (coinbase, staking, developer, mint, nullify, FCT burns) are covered by their own harnesses as they are added",
+    "design_ref": "DESIGN.md §7 C04",
+}
+
 NOT_APPLICABLE = {}
 for i in range(1, 21):
     p = "C%02d" % i
